@@ -124,7 +124,7 @@ for ph in phases:
 //@   ensures[C05.phasekeep] err == nil && old(dkgPhaseOk(m.payload, internal.%(aw)s, internal.%(ok)s)) ==> dkgPhaseOk(m.payload, internal.%(aw)s, internal.%(ok)s) && !dkgAny(m.payload, internal.%(er)s)
 //@   ensures[C05.reject,C18.reject] err != nil ==> dkgViewsSame(m)
 //@   ensures[C05.shape] outEvent == "" && response == nil
-//@   ensures[C05.once] err == nil ==> is%(n)sReq(args) && old(rq%(n)s(args).ParticipantId in dkgQ(m.payload)) && old(dkgQ(m.payload)[rq%(n)s(args).ParticipantId].Status) == internal.%(aw)s && dkgQ(m.payload)[rq%(n)s(args).ParticipantId].Status == internal.%(ok)s
+//@   ensures[C05.once,C10.once] err == nil ==> is%(n)sReq(args) && old(rq%(n)s(args).ParticipantId in dkgQ(m.payload)) && old(dkgQ(m.payload)[rq%(n)s(args).ParticipantId].Status) == internal.%(aw)s && dkgQ(m.payload)[rq%(n)s(args).ParticipantId].Status == internal.%(ok)s
 //@   ensures[C05.data,C02.data] err == nil ==> len(rq%(n)s(args).%(rf)s) > 0 && content(dkgQ(m.payload)[rq%(n)s(args).ParticipantId].%(pf)s) == old(content(rq%(n)s(args).%(rf)s)) && fresh(dkgQ(m.payload)[rq%(n)s(args).ParticipantId].%(pf)s)
 //@   ensures[C05.keepdata] err == nil ==> %(keep)s
 //@   ensures[C05.frame,C10.frame] err == nil ==> dkgOthersSame(m, rq%(n)s(args).ParticipantId) && unchanged("[]byte")
